@@ -89,8 +89,9 @@ func makeJob(seed int64, idx int) *JobSpec {
 
 // traceSink collects the interceptor invocation order of one parse (per goroutine use: one sink per builder).
 type traceSink struct {
-	mu  sync.Mutex
-	buf map[*parser.Parser][]byte
+	mu    sync.Mutex
+	buf   map[*parser.Parser][]byte
+	types []token.Type // the token types this job's lexer builder registered, in registration order
 }
 
 func (ts *traceSink) add(p *parser.Parser, kind byte, idx int) {
@@ -112,88 +113,131 @@ func (ts *traceSink) take(p *parser.Parser) string {
 
 func (j *JobSpec) builder() *parser.Builder { pb, _ := j.builderTraced(); return pb }
 
-func (j *JobSpec) builderTraced() (*parser.Builder, *traceSink) {
+func (j *JobSpec) builderTraced() (*parser.Builder, *traceSink) { return j.builderStaged(nil) }
+
+// builderStaged configures the job's builders step by step. With a coin, parsers (and lexers) are built from the
+// half-configured builders and run on throwaway inputs between the configuration steps: a builder that has already
+// built parsers must still take every later configuration call into account, so the finished builder has to behave
+// exactly like one that was configured in one go (the solo reference).
+func (j *JobSpec) builderStaged(coin *rand.Rand) (*parser.Builder, *traceSink) {
 	ts := &traceSink{}
 	lb := lexer.NewBuilder()
+	pb := parser.NewBuilder(lb)
+	step := func(f func()) {
+		f()
+		if coin != nil && coin.IntN(4) == 0 {
+			func() {
+				defer func() { recover() }()
+				if coin.IntN(3) == 0 {
+					lx := lb.Build("a @ b # 1")
+					for i := 0; i < 8; i++ {
+						lx.NextToken()
+					}
+				} else {
+					pb.Build("let k = a + b * c\nf(k)").ParseProgram()
+				}
+			}()
+		}
+	}
 	types := map[byte]token.Type{}
 	for _, rg := range j.Regs {
 		if _, ok := types[rg.ch]; !ok {
-			types[rg.ch] = lb.RegisterTokenType("op" + string(rg.ch))
+			ch := rg.ch
+			step(func() {
+				types[ch] = lb.RegisterTokenType("op" + string(ch))
+				ts.types = append(ts.types, types[ch])
+			})
 		}
 	}
 	var retype token.Type
 	if j.Retype != "" {
-		retype = lb.RegisterTokenType("kw-" + j.Retype)
+		step(func() {
+			retype = lb.RegisterTokenType("kw-" + j.Retype)
+			ts.types = append(ts.types, retype)
+		})
 	}
 	if len(types) > 0 {
-		lb.UseTokenInterceptor(func(l *lexer.Lexer, next func() token.Token) token.Token {
-			if tt, ok := types[l.CurrentChar]; ok {
-				tok := l.NewToken(tt, string(l.CurrentChar))
-				l.ReadChar()
-				return tok
-			}
-			return next()
+		step(func() {
+			lb.UseTokenInterceptor(func(l *lexer.Lexer, next func() token.Token) token.Token {
+				if tt, ok := types[l.CurrentChar]; ok {
+					tok := l.NewToken(tt, string(l.CurrentChar))
+					l.ReadChar()
+					return tok
+				}
+				return next()
+			})
 		})
 	}
 	if j.Retype != "" {
 		name := j.Retype
-		lb.UseTokenInterceptor(func(l *lexer.Lexer, next func() token.Token) token.Token {
-			tok := next()
-			if tok.Type == token.IDENT && tok.Literal == name {
-				tok.Type = retype
-			}
-			return tok
+		step(func() {
+			lb.UseTokenInterceptor(func(l *lexer.Lexer, next func() token.Token) token.Token {
+				tok := next()
+				if tok.Type == token.IDENT && tok.Literal == name {
+					tok.Type = retype
+				}
+				return tok
+			})
 		})
 	}
 	for i := 0; i < j.NTok; i++ {
-		lb.UseTokenInterceptor(func(l *lexer.Lexer, next func() token.Token) token.Token { return next() })
+		step(func() {
+			lb.UseTokenInterceptor(func(l *lexer.Lexer, next func() token.Token) token.Token { return next() })
+		})
 	}
-	pb := parser.NewBuilder(lb)
 	if j.Mode.Tolerant {
-		pb.WithTolerantMode(true)
+		step(func() { pb.WithTolerantMode(true) })
 	}
 	if j.Mode.Smart {
-		pb.WithSmartSemicolon(true)
+		step(func() { pb.WithSmartSemicolon(true) })
 	}
 	for _, rg := range j.Regs {
 		rg := rg
-		switch rg.role {
-		case "infix":
-			pb.RegisterInfixOperator(types[rg.ch], rg.level, func(tok token.Token, left ast.Expression, right func() ast.Expression) ast.Expression {
-				return &cInfix{Tok: tok, Op: string(rg.ch), L: left, R: right(), Level: rg.level}
-			})
-		case "prefix":
-			pb.RegisterPrefixOperator(types[rg.ch], func(tok token.Token, right func() ast.Expression) ast.Expression {
-				return &cPrefix{Tok: tok, Op: string(rg.ch), X: right()}
-			})
-		case "postfix":
-			pb.RegisterPostfixOperator(types[rg.ch], func(tok token.Token, left ast.Expression) ast.Expression {
-				return &cPostfix{Tok: tok, Op: string(rg.ch), X: left}
-			})
-		}
+		step(func() {
+			switch rg.role {
+			case "infix":
+				pb.RegisterInfixOperator(types[rg.ch], rg.level, func(tok token.Token, left ast.Expression, right func() ast.Expression) ast.Expression {
+					return &cInfix{Tok: tok, Op: string(rg.ch), L: left, R: right(), Level: rg.level}
+				})
+			case "prefix":
+				pb.RegisterPrefixOperator(types[rg.ch], func(tok token.Token, right func() ast.Expression) ast.Expression {
+					return &cPrefix{Tok: tok, Op: string(rg.ch), X: right()}
+				})
+			case "postfix":
+				pb.RegisterPostfixOperator(types[rg.ch], func(tok token.Token, left ast.Expression) ast.Expression {
+					return &cPostfix{Tok: tok, Op: string(rg.ch), X: left}
+				})
+			}
+		})
 	}
 	if j.Retype != "" {
 		name := j.Retype
-		pb.RegisterPrefixOperator(retype, func(tok token.Token, right func() ast.Expression) ast.Expression {
-			return &cPrefix{Tok: tok, Op: name + " ", X: right()}
+		step(func() {
+			pb.RegisterPrefixOperator(retype, func(tok token.Token, right func() ast.Expression) ast.Expression {
+				return &cPrefix{Tok: tok, Op: name + " ", X: right()}
+			})
 		})
 	}
 	for i := 0; i < j.NStmt; i++ {
 		i := i
-		pb.UseStatementInterceptor(func(p *parser.Parser, next func() ast.Statement) ast.Statement {
-			ts.add(p, 's', i)
-			return next()
+		step(func() {
+			pb.UseStatementInterceptor(func(p *parser.Parser, next func() ast.Statement) ast.Statement {
+				ts.add(p, 's', i)
+				return next()
+			})
 		})
 	}
 	for i := 0; i < j.NExpr; i++ {
 		i := i
 		re := i%2 == 1
-		pb.UseExpressionInterceptor(func(p *parser.Parser, next func() ast.Expression) ast.Expression {
-			ts.add(p, 'e', i)
-			if re {
-				return p.ParseRemainingExpression(p.ParsePrefixExpression())
-			}
-			return next()
+		step(func() {
+			pb.UseExpressionInterceptor(func(p *parser.Parser, next func() ast.Expression) ast.Expression {
+				ts.add(p, 'e', i)
+				if re {
+					return p.ParseRemainingExpression(p.ParsePrefixExpression())
+				}
+				return next()
+			})
 		})
 	}
 	return pb, ts
@@ -206,6 +250,7 @@ type JobResult struct {
 	Errors  string   `json:"errors"`
 	Outputs []string `json:"outputs"`
 	Debug   string   `json:"debug"`
+	Types   string   `json:"types"` // ids and display forms (Type.String()) of the token types the job registered, read after the parse
 	Panic   string   `json:"panic,omitempty"`
 }
 
@@ -257,6 +302,9 @@ func finishJob(p *parser.Parser, ts *traceSink, j *JobSpec) (res JobResult) {
 	errs := p.Errors()
 	if ts != nil {
 		res.Trace = ts.take(p)
+		for _, tt := range ts.types {
+			res.Types += fmt.Sprintf("%d=%s;", int(tt), tt.String())
+		}
 	}
 	res.Tree = h(norm.SCustom(prog, sCustom) + "\x00" + spewCfg.Sdump(prog))
 	res.Errors = h(fmt.Sprint(errs))
@@ -320,6 +368,8 @@ func diffResult(a, b JobResult) string {
 		return "tree"
 	case a.Errors != b.Errors:
 		return "errors"
+	case a.Types != b.Types:
+		return "ids / display forms of registered token types"
 	case !reflect.DeepEqual(a.Outputs, b.Outputs):
 		return "outputs"
 	case a.Debug != b.Debug:
@@ -608,7 +658,12 @@ func runC14Sequential(t *fw.T) {
 	ok := t.Guard("build parsers", nil, func() {
 		for _, ji := range idxs {
 			j := makeJob(st.seed, ji)
-			pb, ts := j.builderTraced()
+			var coin *rand.Rand
+			if r.IntN(2) == 0 {
+				coin = rand.New(rand.NewPCG(r.Uint64(), 14)) // configured in stages, with parsers built in between
+				t.Count("builders_configured_in_stages", 1)
+			}
+			pb, ts := j.builderStaged(coin)
 			for k := 0; k < 1+r.IntN(3); k++ {
 				ps = append(ps, pend{ji, j, pb.Build(j.Src), ts})
 			}
